@@ -67,7 +67,7 @@ CORPUS = {
   # witnesses of the two recorded (unrepaired) findings of KNOWN_FINDINGS.json
   "known-choice-canonical-text": sc([leaf(1, b"F", b'long:"f" choice:"1e308" choice:"2"', ("k", "float64")), leaf(2, b"N", b'long:"n" choice:"007" choice:"8"', ("k", "int"))],
                                     [P(b"--f=1e308", b"--n=007"), {"op": "writeini", "iniopts": 0}]),
-  "known-nil-pointer-with-default": sc([leaf(1, b"Mode", b'long:"mode" default:"5" optional:"yes"', ("ptr", "uint8"))], [P(b"--mode"), {"op": "writeini", "iniopts": 0}]),
+  "known-nil-pointer-with-default": sc([leaf(1, b"Mode", b'long:"mode" default:"5" optional:"yes"', ("ptr", "uint8"))], [P(b"--mode=3", b"--mode"), {"op": "writeini", "iniopts": 0}]),
   "known-map-key-line-break": sc([leaf(1, b"M", b'long:"m"', ("map", "string", "string"))], [P(b"--m=a\nb:1"), {"op": "writeini", "iniopts": 0}]),
   # regression guards (not defects of the pinned tree): lines longer than bufio's 4096-byte buffer are reassembled from chunks
   "long-lines": sc([leaf(1, b"S", b'long:"s"', S), leaf(2, b"T", b'long:"t"', ("slice", ("k", "string"))), leaf(3, b"N", b'long:"n"', ("k", "int"))],
